@@ -435,11 +435,26 @@ class Program(BlockBase):  # R201
             # (via Main_Program0) with a program containing no program
             # statement as this is optional in Fortran.
             result = BlockBase.match(Main_Program0, [], None, reader)
-            if result and content:
-                # Keep the comments (and any program units) that were
-                # matched before the main program.
-                result = (content + result[0],)
-            return result
+            if not result:
+                return result
+            # Keep the comments (and any program units) that were
+            # matched before the main program.
+            content = content + result[0]
+            # Anything that follows the main program must be further
+            # program units (a NoMatchError raised here is reported as a
+            # syntax error by the caller).
+            try:
+                while True:
+                    add_comments_includes_directives(content, reader)
+                    # cause a StopIteration exception if there are no more lines
+                    next_line = reader.next()
+                    reader.put_item(next_line)
+                    obj = Program_Unit(reader)
+                    if obj:
+                        content.append(obj)
+            except StopIteration:
+                pass
+            return (content,)
         except StopIteration:
             # Reader has no more lines.
             pass
